@@ -233,7 +233,10 @@ var c10Cells = [][3]any{{"path", "simple", false}, {"path", "label", true}, {"pa
 
 func c10Random(r *Rng) C10Case {
 	comps := jobj("schemas", jobj("Rec", jobj("type", "object", "properties", jobj("next", jref("schemas", "Rec"), "v", c10Schema(r, 1))),
-		"S", c10Schema(r, 2)))
+		"S", c10Schema(r, 2),
+		"RAny", jobj("anyOf", []any{jref("schemas", "RAny"), jobj("type", "string")}),
+		"RAll", jobj("allOf", []any{jobj("type", "string"), jref("schemas", "RAll")}),
+		"ROne", jobj("oneOf", []any{jobj("type", "integer"), jref("schemas", "ROne")})))
 	paths := map[string]any{}
 	var templates []string
 	methodsOf := map[string][]string{}
@@ -260,6 +263,13 @@ func c10Random(r *Rng) C10Case {
 				p["style"], p["explode"], p["schema"] = cell[1], cell[2], Pick(r, []any{c10Schema(r, 2), jref("schemas", "S"), jref("schemas", "Rec")})
 			} else {
 				p["content"] = jobj("application/json", jobj("schema", c10Schema(r, 1)))
+				if r.Chance(25) {
+					p["content"] = jobj("application/json", jobj()) // a media type without schema
+				}
+			}
+			if r.Chance(2) {
+				// a schema that reaches itself through a composition
+				p = jobj("name", p["name"], "in", p["in"], "required", p["required"], "schema", jref("schemas", Pick(r, []string{"RAny", "RAll", "ROne"})))
 			}
 			if r.Chance(25) {
 				// a deepObject parameter whose members are arrays and nested objects
@@ -344,6 +354,9 @@ func c10Random(r *Rng) C10Case {
 		if !strings.Contains(fmt.Sprint(doc["servers"]), "{h}") {
 			delete(doc["servers"].([]any)[0].(map[string]any), "variables")
 		}
+	}
+	if r.Chance(12) && !strings.Contains(fmt.Sprint(paths), "#/components/") {
+		delete(doc, "components") // security requirements naming schemes that nothing declares
 	}
 	c := C10Case{Doc: doc}
 	// traffic
@@ -469,7 +482,17 @@ func init() {
 			meta.Histogram["routed (per router)"] += o.Routed
 			meta.Histogram["requests accepted"] += o.ReqOK
 			meta.Histogram["responses accepted"] += o.RespOK
-			for _, p := range o.Panics {
+			// a schema that reaches itself through allOf/anyOf/oneOf without consuming the value: unbounded
+			// recursion in the parameter decoder and in VisitJSON (recorded finding; identified by the document's shape)
+			cyc := false
+			if pb, _ := json.Marshal(c.Doc["paths"]); regexp.MustCompile(`#/components/schemas/R(Any|All|One)"`).Match(pb) {
+				cyc = true
+			}
+			for pi, p := range o.Panics {
+				if cyc && (p == "fatal:traffic" || p == "hang") {
+					p += ":schema-reaches-itself-through-a-composition"
+					o.Panics[pi] = p
+				}
 				meta.Histogram["panic:"+p]++
 				meta.GoViolation = append(meta.GoViolation, map[string]any{"signature": p, "cases": []any{c}, "go_observation": o, "judgement": "panic / fatal error: " + p})
 			}
